@@ -33,9 +33,10 @@ from supervisor.xmlrpc import RPCError, traverse, xmlrpc_marshal  # noqa: E402
 import supvisors.internal_com.mapper as sv_mapper  # noqa: E402
 from supvisors.internal_com import supervisorproxy as sv_proxy  # noqa: E402
 from supvisors.internal_com.supervisorproxy import (SupervisorProxy, SupervisorProxyThread,  # noqa: E402
-                                                    SupervisorProxyServer, SupervisorProxyException)
+                                                    SupervisorProxyServer, SupervisorProxyException,
+                                                    InternalEventHeaders)
 from supvisors.plugin import make_supvisors_rpcinterface  # noqa: E402,F401
-from supvisors.ttypes import SupvisorsInstanceStates, SupvisorsStates  # noqa: E402
+from supvisors.ttypes import SupvisorsInstanceStates, SupvisorsStates, PublicationHeaders  # noqa: E402
 
 BASE_TIME = 1_700_000_000.0
 MIN_LIFETIME = 0.2
@@ -337,6 +338,16 @@ class SimProxy(SupervisorProxy):
         message = self.fifo.popleft()
         ready = self.ready.popleft() if self.ready else 0.0
         self.inst.step_skew = 0.0
+        try:
+            # observation only: a PROCESS publication that the real publish() is about to drop because the peer is
+            # not seen active any more (it was when the event was queued)
+            kind, (source, body) = message
+            if kind == InternalEventHeaders.PUBLICATION and body[0] == PublicationHeaders.PROCESS.value and \
+                    not self.status.has_active_state():
+                w.emit('pub_dropped', src=self.inst.nick, dst=w.by_identifier.get(self.status.identifier),
+                       namespec=f"{body[1]['group']}:{body[1]['name']}", state=body[1]['state'])
+        except (TypeError, ValueError, KeyError, IndexError):
+            pass
         with w.enter(self.inst):
             try:
                 self.process_event(message)
